@@ -1,9 +1,12 @@
-import json
-p='/verif/DESIGN.md'; s=open(p).read()
+#!/usr/bin/env python3
+"""Regenerates DESIGN.md §10 from docgen/design10.tmpl, known_findings.json, seeded/RESULTS.tsv and docgen/costs.tsv."""
+import json, re, os, glob
+R='/verif'
+p=R+'/DESIGN.md'; s=open(p).read()
 i=s.index("## 10. Change log of the machinery")
 j=s.index("## Appendix A")
-d=json.load(open('/verif/known_findings.json'))
-def esc(x): return x.replace('|','\\|')
+d=json.load(open(R+'/known_findings.json'))
+def esc(x): return x.replace('|','\\|').replace('\n',' ')
 rows=[]
 for f in d['findings']:
     if f['status']=='fixed':
@@ -12,6 +15,34 @@ openrows=[]
 for f in d['findings']:
     if f['status']=='open':
         openrows.append("| %s | `%s` | %s | %s |" % (f['property'], f['sig'], esc(f['what']), esc(f.get('why_not_fixed',''))))
-new=open('/verif/docgen/design10.tmpl').read().replace('@@FIXED@@',"\n".join(rows)).replace('@@OPEN@@',"\n".join(openrows))
+# seed table
+seed=["| seed | site / what it breaks (author's words, shortened) | result on the final tree | first signature reported |","|---|---|---|---|"]
+if os.path.exists(R+'/seeded/RESULTS.tsv'):
+    for l in open(R+'/seeded/RESULTS.tsv').read().splitlines():
+        c=l.split('\t')
+        sid=c[0]
+        try: m=json.load(open(f'{R}/seeded/{sid}/meta.json'))
+        except Exception: m={}
+        summ=esc(m.get('summary','')); summ=summ[:230]+('…' if len(summ)>230 else '')
+        if len(c)>=5:
+            res=f"caught ({c[3]}, {c[2].replace('violations=','')} signatures, {c[4]})" if c[1]=='exit=1' else f"**{c[1]}**"
+            sig=esc(c[5][4:] if len(c)>5 and c[5].startswith('sig=') else (c[5] if len(c)>5 else ''))[:110]
+        else:
+            res="**"+c[1]+"**"; sig=''
+        seed.append(f"| {sid} | {summ} | {res} | `{sig}` |")
+# cost table
+cost=["| check | quick wall | quick executions | thorough wall | thorough executions | thorough exhaustive |","|---|---|---|---|---|---|"]
+if os.path.exists(R+'/docgen/costs.tsv'):
+    q={};t={}
+    for l in open(R+'/docgen/costs.tsv').read().splitlines():
+        c=l.split()
+        if len(c)<3: continue
+        kv=dict(x.split('=',1) for x in c[2:] if '=' in x)
+        (q if c[1]=='quick' else t)[c[0]]=kv
+    for id in sorted(set(q)|set(t)):
+        a=q.get(id,{}); b=t.get(id,{})
+        cost.append(f"| {id} | {a.get('wall','?')} | {a.get('executions','?')} | {b.get('wall','?')} | {b.get('executions','?')} | {b.get('exhaustive','?')} |")
+new=open(R+'/docgen/design10.tmpl').read().replace('@@FIXED@@',"\n".join(rows)).replace('@@OPEN@@',"\n".join(openrows)).replace('@@SEEDTABLE@@',"\n".join(seed)).replace('@@COSTTABLE@@',"\n".join(cost))
 s=s[:i]+new+s[j:]
 open(p,'w').write(s)
+print("DESIGN.md §10 regenerated:", len(rows), "fixed,", len(openrows), "open,", len(seed)-2, "seeds,", len(cost)-2, "cost rows")
